@@ -416,6 +416,82 @@ def r1b(db, rep):
     rep.floor("R1b", "float→int casts on conversion paths", n, 12)
 
 
+ARITH_CALLS = ("min", "max", "saturating_sub", "saturating_add", "checked_sub", "checked_add", "wrapping_sub", "wrapping_add",
+               "try_from", "try_into", "into", "from", "unwrap", "expect", "unwrap_or", "clamp", "abs", "branch", "js_expect",
+               "clone", "unwrap_or_default", "ok", "map")
+RAW_LENGTHS = ("SliceRef::len", "SliceRefMut::len", "ArrayBuffer::len", "SharedArrayBuffer::len", "BufferObject::len")
+
+
+def _value_sources(f, local):
+    """terminal producers of an integer value: follows copies, casts, arithmetic (both operands) and min/max/saturating_*
+    style calls (all arguments); returns the canonical names of the calls it stops at"""
+    seen, out = set(), set()
+    st = [local]
+    while st and len(seen) < 600:
+        cur = st.pop()
+        if cur in seen:
+            continue
+        seen.add(cur)
+        for b, i, r in f.defs().get(cur, []):
+            if isinstance(r, dict) and r.get("k") == "partial":
+                r = r["r"] if isinstance(r.get("r"), dict) and "k" in r["r"] else None
+                if r is None:
+                    continue
+            if i == "t":
+                c = cn(r)
+                if c.split("::")[-1] in ARITH_CALLS:
+                    for a in r["args"]:
+                        if a[0] in ("c", "m"):
+                            st.append(a[1][0])
+                else:
+                    out.add(c if not (callee(r) or "").endswith("<impl [T]>::len") else "[T]::len")
+                continue
+            k = r.get("k")
+            if k in ("use", "cast", "un"):
+                if r["o"][0] in ("c", "m"):
+                    st.append(r["o"][1][0])
+            elif k in ("bin", "checked"):
+                for o in (r["a"], r["b"]):
+                    if o[0] in ("c", "m"):
+                        st.append(o[1][0])
+            elif k in ("ref", "discr"):
+                st.append(r["p"][0])
+            elif k == "agg":
+                for o in r["ops"]:
+                    if o[0] in ("c", "m"):
+                        st.append(o[1][0])
+    return out
+
+
+def r7(db, rep):
+    rep.rule("R7", "the byte count of a raw copy between typed-array views is a whole number of elements: it is computed from "
+                   "element counts and element sizes (array_length, element_size, relative indices) and is never bounded by "
+                   "the raw byte length of the buffer, which need not be a multiple of the element size after a resize")
+    n = 0
+    for f in db.fns.values():
+        if not f.id.startswith("boa_engine::builtins::typed_array") or "{closure" in f.id or "::tests" in f.id:
+            continue
+        if not (f.mentions("memcpy") or f.mentions("memmove") or f.mentions("copy_shared_to_shared")):
+            continue
+        name = cname(f.id)
+        k = 0
+        for b, t in f.calls():
+            if cn(t) not in RAW_COPIES or not t["args"]:
+                continue
+            l = op_local(t["args"][-1])
+            if l is None:
+                continue
+            n += 1
+            srcs = _value_sources(f, l)
+            raw = sorted(x for x in srcs if x in RAW_LENGTHS or x == "[T]::len")
+            rep.ob("R7", f"{name}:{cn(t).split('::')[-1]}:{k}:whole-elements", not raw,
+                   f"{name}: the byte count of {cn(t)} ({f.loc(b)}) is bounded by the raw buffer length ({raw}): after "
+                   f"`rab.resize(n)` inside an argument's valueOf with (n - byteOffset) % elementSize != 0, copyWithin moves up "
+                   f"to elementSize-1 bytes that lie behind the last whole element of the view", loc=f.loc(b))
+            k += 1
+    rep.floor("R7", "raw copies in the typed-array builtins", n, 4)
+
+
 def _ctx_calls(f):
     return [bb for bb, tt in f.calls() if cn(tt) not in NO_SCRIPT_WITH_CONTEXT
             if any(op_local(a) is not None and f.locals[op_local(a)].replace(" ", "") in
@@ -496,5 +572,6 @@ def run(db, rep, tier):
     r4(db, rep)
     r5(db, rep)
     r6(db, rep)
+    r7(db, rep)
     rep.assumptions += ["subslice()/subslice_mut() panic on an out-of-range start (slice indexing), they never produce a "
                         "dangling reference"]
